@@ -131,9 +131,68 @@ def job_chunk_lemma(E, rep, tier):
           CI.INTERP(G(k1 + kap - 1), SYf(k1 + kap - 1), G(k1 + kap), SYf(k1 + kap), tau))
 
 
+def job_interp_endpoint(E, rep, tier):
+    """The state handed to the next chunk is ys[-1] = linear_interp(prev_t, prev_y, curr_t, curr_y, t = curr_t).  For the restart to be
+    bit-identical this must be curr_y *exactly*, in floating point.  The real body is executed with uninterpreted floating-point
+    operations on both times and values; the only facts used are IEEE identities for finite operands:
+        x - x = 0;   0 / x = 0 and x / x = 1 for x != 0;   0 * y = 0;   1 * y = y;   0 + y = y = y + 0;   t0 < t1 => t1 - t0 != 0.
+    (x * (1/x) = 1 is NOT an IEEE identity.)"""
+    from pyvc.interp import Ctx
+    rep.under_contract('torchsde._core.interp.linear_interp')
+    fn = E.function('torchsde._core.interp.linear_interp')
+    def ieee_instances(exprs):
+        """Ground instances of the IEEE identities for every floating-point operation occurring in exprs (finite, complete for these terms)."""
+        out, seen, stack = [], set(), list(exprs)
+        while stack:
+            e = stack.pop()
+            if e.get_id() in seen:
+                continue
+            seen.add(e.get_id())
+            if z3.is_app(e):
+                stack.extend(e.children())
+                d = e.decl()
+                if e.num_args() == 2:
+                    a, b = e.arg(0), e.arg(1)
+                    if z3.eq(d, CI.FSUB):
+                        out += [z3.Implies(a == b, e == 0), z3.Implies(a != b, e != 0)]
+                    elif z3.eq(d, CI.FDIV):
+                        out += [z3.Implies(z3.And(a == 0, b != 0), e == 0), z3.Implies(z3.And(a == b, b != 0), e == 1)]
+                    elif z3.eq(d, CI.FMUL):
+                        out += [z3.Implies(a == 0, e == 0), z3.Implies(b == 0, e == 0), z3.Implies(a == 1, e == b), z3.Implies(b == 1, e == a)]
+                    elif z3.eq(d, CI.FADD):
+                        out += [z3.Implies(a == 0, e == b), z3.Implies(b == 0, e == a)]
+        return out
+    for which in ('t=t1', 't=t0'):
+        cx = Ctx(E, [])
+        t0, t1 = CI.UT(cx.fresh('t0')), CI.UT(cx.fresh('t1'))
+        y0, y1 = CI.UT(cx.fresh('y0')), CI.UT(cx.fresh('y1'))
+        cx.assume(t0.e < t1.e)
+        t = t1 if which == 't=t1' else t0
+        try:
+            r = E.call_function(fn, [], dict(t0=t0, y0=y0, t1=t1, y1=y1, t=t), cx, 0, force_body=True)
+        except PyExc as e:
+            rep.add(f'C13/linear_interp[float,{which}]/no-raise', 'no-raise', 'refuted', 'pyvc-exec', model={'raised': f'{e.cls}: {e.msg}'})
+            continue
+        want = y1.e if which == 't=t1' else y0.e
+        s_ = z3.Solver()
+        s_.set('timeout', 20000)
+        from pyvc.values import to_z3 as _tz
+        for f in cx.pc:
+            s_.add(f)
+        for ax in ieee_instances(list(cx.pc) + [_tz(r), want]):
+            s_.add(ax)
+        s_.add(_tz(r) != want)
+        t_0 = time.time()
+        res = s_.check()
+        st = 'discharged' if res == z3.unsat else ('refuted' if res == z3.sat else 'unknown')
+        rep.add(f'C13/linear_interp[float,{which}]/post.returns-the-end-state-exactly', 'post', st, 'z3-' + z3.get_version_string(), time.time() - t_0,
+                model=None if st != 'refuted' else {'result term': str(z3.simplify(_tz(r)))[:200]},
+                statement='with uninterpreted floating-point operations and the IEEE identities only, linear_interp at an end point is that end state')
+
+
 def jobs(tier):
     return [Job('integrate-uninterpreted-time', job_integrate_ut), Job('relational-loop-body', job_relational),
-            Job('step-frames', job_frames), Job('chunk-lemma', job_chunk_lemma)]
+            Job('step-frames', job_frames), Job('chunk-lemma', job_chunk_lemma), Job('interp-endpoint-float', job_interp_endpoint)]
 
 
 def canaries(tier):
